@@ -24,7 +24,7 @@ RULE = (
     "non-trivial = state with at least 3 linked nodes (a route of >=2 hops exists); distinct by history"
 )
 BOUNDS = {
-    "quick": "trees n<=6 (classes) + all labelled trees n<=5; graphs: 4 nodes all edges, 5 nodes <=6 edges, 6 nodes <=6 edges; registry histories depth<=3 over 13 registration operations (incl. two re-registrations of a used name and a local orbital frame on a body-centred parent)",
+    "quick": "trees n<=6 (classes) + all labelled trees n<=5; graphs: 4 nodes all edges, 5 nodes <=6 edges, 6 nodes <=6 edges; registry histories depth<=3 over 14 registration operations (incl. two re-registrations of a used name and a local orbital frame on a body-centred parent)",
     "thorough": "trees n<=8 (classes) + all labelled trees n<=6; graphs: 5 nodes <=8 edges, 6 nodes <=7 edges; registry histories depth<=4",
 }
 ASSUMPTIONS = [
@@ -136,8 +136,39 @@ def build(n, hist):
 
     nodes = [Node("n%d" % i) for i in range(n)]
     for a, b in hist:
-        nodes[a] + nodes[b]
+        r = nodes[a] + nodes[b]
+        if r is not nodes[b]:
+            # `a + b` returns b, which is what makes chains such as A + B + C link B to C
+            raise ChainContract(a, b)
     return nodes
+
+
+class ChainContract(Exception):
+    pass
+
+
+def build_checked(n, hist, t, kind):
+    """build(), turning a broken `a + b is b` contract into a violation. Returns None in that case."""
+    try:
+        return build(n, hist)
+    except ChainContract as e:
+        a, b = e.args
+        t.fail("node/add-does-not-return-other", "`a + b` links a and b and returns b (chains A + B + C link B to C)",
+               dict(kind=kind, n=n, history=[list(x) for x in hist]), f"node {b}", "another object", f"{a} + {b} after {hist[:-1]}")
+        return None
+
+
+def relink_checks(n, hist, t, kind):
+    """Declaring an existing link again (either way round) keeps every invariant and still returns the other node."""
+    und = sorted(set((min(a, b), max(a, b)) for a, b in hist))
+    for a, b in und:
+        for x, y in ((a, b), (b, a)):
+            h2 = list(hist) + [(x, y)]
+            nodes = build_checked(n, h2, t, kind + "+relink")
+            t.trans(len(h2))
+            if nodes is not None:
+                check_state(n, h2, nodes, t, kind + "+relink")
+            t.states_add(1)
 
 
 def follow(nodes, idx, a, b, limit):
@@ -168,12 +199,14 @@ def check_state(n, hist, nodes, t, kind):
     for a in range(n):
         na = nodes[a]
         # self
-        try:
-            p = na.path(na.name)
-            if len(p) != 1 or p[0] is not na:
-                t.fail(f"node/{shape}/self-path", "path to self is [self]", case, [a], [idx.get(id(x)) for x in p])
-        except Exception as e:
-            t.fail(f"node/{shape}/self-path", "path to self is [self]", case, [a], repr(e))
+        for how, goal in (("name", na.name), ("object", na)):
+            try:
+                p = na.path(goal)
+                st = list(na.steps(goal))
+                if len(p) != 1 or p[0] is not na or st:
+                    t.fail(f"node/{shape}/self-path/{how}", "the chain from an item to itself is empty ([self], no steps)", case, [a], [[idx.get(id(x)) for x in p], len(st)])
+            except Exception as e:
+                t.fail(f"node/{shape}/self-path/{how}", "the chain from an item to itself is empty ([self], no steps)", case, [a], repr(e))
         comp = [b for b in range(n) if dist[a][b] > 0]
         for b in range(n):
             if a == b:
@@ -323,10 +356,14 @@ def run_tree(n, edges, first, t, kind):
 
     def rec(hist, remaining):
         if hist:
-            nodes = build(n, hist)
+            nodes = build_checked(n, hist, t, kind)
+            if nodes is None:
+                return
             t.trans(len(hist))
             t.states_add(1)
             pairs = check_state(n, hist, nodes, t, kind)
+            if n <= 4:
+                relink_checks(n, hist, t, kind)
             t.ev(("T", n, tuple(hist)) if len(hist) >= 2 else None)
             if len(hist) == m:
                 t.outcome(("tree", n, canon_tables_shape(nodes)))
@@ -354,14 +391,20 @@ def run_graph(n, m, prefix, t):
     """BFS over insertion histories with canonical-state deduplication."""
     seen = set()
     frontier = deque([list(prefix)])
-    nodes = build(n, prefix)
+    nodes = build_checked(n, prefix, t, "graph")
+    if nodes is None:
+        return
     seen.add(canon_state(nodes))
     while frontier:
         hist = frontier.popleft()
-        nodes = build(n, hist)
+        nodes = build_checked(n, hist, t, "graph")
+        if nodes is None:
+            continue
         t.trans(len(hist))
         t.state(("G", n, canon_state(nodes)))
         check_state(n, hist, nodes, t, "graph")
+        if n <= 4:
+            relink_checks(n, hist, t, "graph")
         t.ev(("G", n, tuple(hist)))
         und = set((min(a, b), max(a, b)) for a, b in hist)
         t.outcome(("graph", n, len(und), canon_tables_shape(nodes)))
@@ -375,7 +418,10 @@ def run_graph(n, m, prefix, t):
                     continue
                 # keep the graph connected-as-it-grows or not: both are allowed (forests of components)
                 h2 = hist + [(a, b)]
-                k = canon_state(build(n, h2))
+                nodes2 = build_checked(n, h2, t, "graph")
+                if nodes2 is None:
+                    continue
+                k = canon_state(nodes2)
                 t.trans(len(h2))
                 if k not in seen:
                     seen.add(k)
@@ -385,7 +431,7 @@ def run_graph(n, m, prefix, t):
 # ---------------------------------------------------------------------------
 # registries of the real frames
 
-REG_OPS = ["sta1", "sta2", "staE", "orb0", "orbQ", "orbT", "moon", "sun", "orbM", "orbN", "lofM", "orb0b", "sta1b"]
+REG_OPS = ["sta1", "sta2", "staE", "orb0", "orbQ", "orbT", "moon", "sun", "orbM", "orbN", "lofM", "orb0b", "sta1b", "svQ"]
 # operations that need an earlier registration: the frame their reference orbit is expressed in, or - for the
 # re-registrations orb0b / sta1b - the name they define again with other data (the links of the new definition
 # must then be the ones followed)
@@ -458,6 +504,12 @@ def _apply(op):
         o = Orbit([8200e3, 0.02, 1.3, 2.0, 1.1, 4.0], _REG["date"], "keplerian", "EME2000", "Kepler")
         _REG["ref_of"]["Orb0"] = o
         return orbit2frame("Orb0", o, None, exists_warning=False).name
+    if op == "svQ":  # local orbital frame on a plain (non-propagating) StateVector given in another frame than the parent
+        from beyond.orbits import StateVector
+
+        o = StateVector([-2.1e6, 6.4e6, 1.3e6, -6.9e3, -2.0e3, 1.5e3], _REG["date"], "cartesian", "TEME")
+        _REG["ref_of"]["SvQ"] = o
+        return orbit2frame("SvQ", o, "QSW").name
     if op == "lofM":  # local orbital frame whose parent frame is not named after its orientation (Moon frame, EME2000 axes)
         from beyond.orbits import Orbit
         from beyond.frames.frames import get_frame
@@ -503,11 +555,15 @@ def check_registry(hist, t):
     R["sta_of"] = {}
     case = dict(kind="registry", history=list(hist))
     new = []
+    snaps = {}
     for op in hist:
         try:
             nm = _apply(op)
             if nm not in new:
                 new.append(nm)
+            if nm in R["ref_of"]:
+                o = R["ref_of"][nm]
+                snaps[nm] = (np.array(o, dtype=float).tobytes(), str(o.frame), str(o.form))
         except Exception as e:
             t.fail("registry/create-raises/" + op, "registering a frame under a new name succeeds", case, None, repr(e))
             world.restore(R["snap"])
@@ -561,6 +617,13 @@ def check_registry(hist, t):
                        case, 0.0, z.tolist(), f"{a}: reference object at {z[:3]} in its own frame after {hist}")
         except Exception as e:
             t.fail("registry/origin-raises/" + _kind(a), "every pair of connected frames is convertible", case, "conversion", repr(e), a)
+    # the objects handed to orbit2frame are the user's: conversions never modify them
+    for nm, snap in snaps.items():
+        o = R["ref_of"][nm]
+        now = (np.array(o, dtype=float).tobytes(), str(o.frame), str(o.form))
+        if now != snap:
+            t.fail("registry/reference-mutated/" + _kind(nm), "conversions through an orbit-attached frame leave the object it is attached to unchanged",
+                   case, [snap[1], snap[2]], [now[1], now[2]], f"{nm}: reference was {snap[1]}/{snap[2]}, now {now[1]}/{now[2]} after {hist}")
     # a station's origin is the geodetic point of its CURRENT definition (independent ellipsoid formula; a and f read
     # from the library's constants as data)
     from mc.ref import geodesy
@@ -587,7 +650,7 @@ def check_registry(hist, t):
 
 
 def _kind(name):
-    return {"Sta1": "station", "Sta2": "station", "StaE": "eq-station", "Orb0": "orbframe", "OrbM": "orbframe-on-body", "OrbN": "orbframe-nested", "OrbQ": "lof", "OrbT": "lof", "LofM": "lof-on-body"}.get(name, "body" if name in ("Moon", "Sun") else "builtin")
+    return {"Sta1": "station", "Sta2": "station", "StaE": "eq-station", "Orb0": "orbframe", "OrbM": "orbframe-on-body", "OrbN": "orbframe-nested", "OrbQ": "lof", "OrbT": "lof", "LofM": "lof-on-body", "SvQ": "lof-on-statevector"}.get(name, "body" if name in ("Moon", "Sun") else "builtin")
 
 
 def run_registry(prefix, depth, t):
@@ -611,5 +674,6 @@ def replay(case, t):
     else:
         n = case["n"]
         hist = [tuple(e) for e in case["history"]]
-        nodes = build(n, hist)
-        check_state(n, hist, nodes, t, case["kind"])
+        nodes = build_checked(n, hist, t, case["kind"].replace("+relink", ""))
+        if nodes is not None:
+            check_state(n, hist, nodes, t, case["kind"])
